@@ -24,6 +24,8 @@ From Coq Require Import List NArith ZArith Arith Bool Lia.
 From Mamba Require Import Disjoint.Model Search.Model Search.SaveModel Search.SaveProofs.
 From Mamba Require Import Search.ShardModel Search.Prune Search.OrderlyTop.
 From Mamba Require Import Search.OrderlyInstKsubModel Search.ComposeModel Search.Compose Search.ComposeResume.
+From Mamba Require Canon.Iso Canon.SearchModel Canon.SearchReuseModel Canon.AutResetModel Canon.AutReset.
+From Mamba Require Import Search.ComposeReuseModel Search.ComposeReuse.
 Import ListNotations.
 Local Open Scope nat_scope.
 
@@ -107,6 +109,41 @@ Theorem C04_resume_remaining_real :
 Proof. exact real_resume_full. Qed.
 Print Assumptions C04_resume_remaining_real.
 
+(* The loaded iterator owns a FRESH CanonicalStorage / CanonicalOrderedPartition, the original one
+   DIRTY ones (they are not saved).  That makes no difference to what getAutomorphismGroup stores:
+   [canon_real_reused st op ..] (Search/ComposeReuseModel.v) is the same call on the reuse model of
+   Canon/SearchReuseModel.v — every array of the storage and of the partition holds ARBITRARY
+   contents, only the capacities of WithPruning(N, ..) are known; op.Reset modelled on arrays — with
+   the CheckViability exit added to it as in ComposeModel.v.  For every well-formed graph with at
+   most N vertices, both values of CheckViability and every ViableBits it equals [canon_real], the
+   run on fresh storage (for CheckViability = false this is C02's reuse theorem; the early exit is
+   new: with currentBest empty the first refinement reads neither currentBest nor firstLeaf). *)
+Theorem C04_labelling_ignores_reused_storage_real :
+  forall N st op g nb cv vb,
+  ShardModel.wfv g -> ShardModel.nv_of g <= N -> all_nbrs g = Some nb ->
+  SearchReuseModel.storage_caps st N (tri N) -> AutReset.caps_ok op N (tri N) ->
+  canon_real_reused st op (ShardModel.nv_of g) (ne_of g) nb cv vb =
+  canon_real (ShardModel.nv_of g) (ne_of g) nb cv vb.
+Proof. exact real_reused_on_search. Qed.
+Print Assumptions C04_labelling_ignores_reused_storage_real.
+
+(* ... on adjacency matrices: op.Reset(n, m, nil) on any old partition state, then
+   CanonicalIsomorphAllocated with CheckViability = true on any storage contents, returns the
+   permutation, orbit array and generators — or nil — of the call on fresh storage, and leaves
+   the capacities of the storage intact. *)
+Theorem C04_check_viability_reuse :
+  forall G vb fuel st op,
+  Iso.simple G -> SearchReuseModel.storage_caps st (length G) (SearchModel.num_edges G) ->
+  AutReset.caps_ok op (length G) (SearchModel.num_edges G) ->
+  SearchReuseModel.res_map fst (canon_alloc_reset_v fuel st op G vb) = canon_search_v fuel G vb /\
+  forall r st' N M, SearchReuseModel.storage_caps st N M ->
+    canon_alloc_reset_v fuel st op G vb = SearchModel.Ok (r, st') -> SearchReuseModel.storage_caps st' N M.
+Proof.
+  intros G vb fuel st op HG HS HO. split; [exact (canon_alloc_reset_v_noninterference G vb fuel st op HG HS HO)|].
+  intros r st' N M HC H. exact (canon_alloc_reset_v_caps fuel st op G vb r st' N M HC H).
+Qed.
+Print Assumptions C04_check_viability_reuse.
+
 (* Non-vacuity on the composed model, n = 4 (11 graphs): after five graphs the original holds a
    cached automorphism group computed by the labelling model; the loaded state is a different
    state with the same projection and an empty cache; both go on with the same six graphs and
@@ -145,3 +182,33 @@ Proof.
   split; [vm_compute; reflexivity|]. split; [vm_compute; reflexivity|].
   vm_compute. split; reflexivity.
 Qed.
+
+(* Non-vacuity of the reuse theorems: a storage and a partition of capacity 9 vertices / 36 edges
+   filled with junk; the star with centre 2 and ViableBits = {0} (early exit), the same with
+   ViableBits = {} and without CheckViability (full answer), and the 6-vertex graph of
+   Props/C03_unconditional.v with the viable set 26 (early exit): the call on the junk gives what
+   the call on fresh storage gives. *)
+Definition ex_junk (k : nat) : list nat := map (fun i => Nat.modulo (i * 7 + 3) 5) (seq 0 k).
+Definition ex_junkz (k : nat) : dset := map (fun i => Z.of_nat (Nat.modulo (i * 7 + 3) 5)) (seq 0 k).
+Definition ex_dirty : SearchReuseModel.storage :=
+  SearchReuseModel.mkSt (ex_junk 9) (ex_junk 9) (repeat (ex_junk 7) 8) (ex_junk 36) (ex_junk 9) (ex_junk 9) (ex_junk 9)
+       (ex_junkz 9) (ex_junk 36) (ex_junk 9) (ex_junkz 9) (ex_junk 9)
+       (ex_junk 9) (repeat (1, 1) 9) (ex_junk 9) (ex_junk 9) (ex_junk 9) (ex_junk 9).
+Definition ex_op : AutResetModel.opst :=
+  AutResetModel.mkop (AutResetModel.mk (ex_junk 9) 4) (AutResetModel.mk (ex_junk 9) 3) (AutResetModel.mk (ex_junk 9) 3)
+                     (AutResetModel.mk (ex_junk 9) 2) (AutResetModel.mk (ex_junk 36) 5) (AutResetModel.mk (ex_junk 9) 4) 3 2.
+
+Example C04_reuse_nonvacuous :
+  let star := [[2]; [2]; [0; 1]] in
+  let g6 := [[1; 3; 4; 5]; [0; 5]; [3; 4]; [0; 2]; [0; 2]; [0; 1]] in
+  canon_real_reused ex_dirty ex_op 3 2%Z star true 1%N = no_cache /\
+  canon_real 3 2%Z star true 1%N = no_cache /\
+  canon_real_reused ex_dirty ex_op 3 2%Z star true 0%N = mkCache (Some [1; 0; 2]) [1; -2; -1]%Z [[1; 0; 2]] /\
+  canon_real 3 2%Z star true 0%N = mkCache (Some [1; 0; 2]) [1; -2; -1]%Z [[1; 0; 2]] /\
+  canon_real_reused ex_dirty ex_op 3 2%Z star false 5%N = canon_real 3 2%Z star false 0%N /\
+  canon_real_reused ex_dirty ex_op 6 7%Z g6 true 26%N = no_cache /\
+  canon_real 6 7%Z g6 true 26%N = no_cache /\
+  canon_real_reused ex_dirty ex_op 6 7%Z g6 false 0%N = canon_real 6 7%Z g6 false 0%N /\
+  CPerm (canon_real 6 7%Z g6 false 0%N) = Some [2; 4; 3; 5; 1; 0].
+Proof. vm_compute. repeat split. Qed.
+
